@@ -8,8 +8,15 @@ package main
 // time.Until of those packages reads the simulated clock.
 
 import (
+	"encoding/json"
+	"fmt"
+	"os"
+	"path/filepath"
+	"strings"
 	"time"
 
+	zlint "github.com/zmap/zlint/v3"
+	"github.com/zmap/zlint/v3/lint"
 	"github.com/zmap/zlint/v3/verifyield"
 )
 
@@ -61,4 +68,102 @@ func setSimTimers(on bool, early bool, onStart func(site string)) {
 		}
 		return d
 	}
+}
+
+// ---------------------------------------------------------------- helper index (coverage-guided aiming)
+
+// helperUse: linting corpus object File with the single lint Lint enters the helper function.
+type helperUse struct {
+	File string `json:"file"`
+	Lint string `json:"lint"`
+}
+
+var helperMemo map[string][]helperUse
+
+// helperIndex maps every function of package util (as the instrumented copy names its entry site) to the
+// (object, lint) pairs that were seen entering it: for every corpus object, each lint that has a finding on it
+// is run alone on a fresh parse with the function-entry hook recording. Which rules share which helper is
+// then an observation of this very build, not a list kept by hand; the schedule generator uses it to put
+// different objects into the same helper at the same time and to switch there. Cached per binary.
+func helperIndex() map[string][]helperUse {
+	if helperMemo != nil {
+		return helperMemo
+	}
+	path := filepath.Join(verifRoot(), "work", "helper-index-"+binHash()+".json")
+	if b, err := os.ReadFile(path); err == nil {
+		var m map[string][]helperUse
+		if json.Unmarshal(b, &m) == nil && len(m) > 0 {
+			helperMemo = m
+			return m
+		}
+	}
+	raw := map[string][]helperUse{}
+	for _, e := range corpusClassIndex() {
+		if len(e.Find) == 0 {
+			continue
+		}
+		o := loadCorpusFile(e.File)
+		if o == nil {
+			continue
+		}
+		for li, L := range e.Find {
+			if li >= 5 || isProbeName(L) {
+				break
+			}
+			p, err := parseObj(o.Kind, o.DER)
+			if err != nil {
+				break
+			}
+			reg, err := lint.GlobalRegistry().Filter(lint.FilterOptions{IncludeNames: []string{L}})
+			if err != nil {
+				continue
+			}
+			seen := map[string]bool{}
+			verifyield.Hook = func(site string) {
+				if strings.HasPrefix(site, "util.") {
+					seen[site] = true
+				}
+			}
+			func() {
+				defer func() { recover() }()
+				switch p.Kind {
+				case KCert:
+					zlint.LintCertificateEx(p.Cert, reg)
+				case KCRL:
+					zlint.LintRevocationListEx(p.CRL, reg)
+				case KOCSP:
+					zlint.LintOcspResponseEx(p.OCSP, reg)
+				}
+			}()
+			verifyield.Hook = nil
+			for _, site := range sortedKeys(seen) {
+				raw[site] = append(raw[site], helperUse{File: e.File, Lint: L})
+			}
+		}
+	}
+	out := map[string][]helperUse{}
+	for h, uses := range raw {
+		files := map[string]bool{}
+		for _, u := range uses {
+			files[u.File] = true
+		}
+		if len(files) >= 2 {
+			out[h] = uses
+		}
+	}
+	b, _ := json.Marshal(out)
+	os.MkdirAll(filepath.Dir(path), 0o755)
+	tmp := fmt.Sprintf("%s.%d.tmp", path, os.Getpid())
+	if os.WriteFile(tmp, b, 0o644) == nil {
+		os.Rename(tmp, path)
+		if old, _ := filepath.Glob(filepath.Join(filepath.Dir(path), "helper-index-*.json")); len(old) > 0 {
+			for _, f := range old {
+				if f != path {
+					os.Remove(f)
+				}
+			}
+		}
+	}
+	helperMemo = out
+	return out
 }
